@@ -15,10 +15,11 @@ class Config:
     """One cluster configuration = constants of Cluster.tla + options of the real instances."""
 
     def __init__(self, n=2, core=(), sync=('STRICT',), auto_fence=False, fail='CONTINUE', t=2, sync_ticks=3,
-                 crash=0, restart=0, cut=0, user=0, slow=(), fix_f1=True, fix_f5=True, hold=False, rounds=6, k=8, mismatch=(), name=None):
+                 crash=0, restart=0, cut=0, user=0, conflict=0, slow=(), fix_f1=True, fix_f5=True, hold=False, rounds=6, k=8, mismatch=(), name=None):
         self.n, self.core, self.sync = n, tuple(core), tuple(sync)
         self.auto_fence, self.fail, self.t, self.sync_ticks = auto_fence, fail, t, sync_ticks
         self.crash, self.restart, self.cut, self.user = crash, restart, cut, user
+        self.conflict = conflict
         self.slow = tuple(slow)
         self.fix_f1, self.hold, self.rounds, self.k = fix_f1, hold, rounds, k
         self.fix_f5 = fix_f5
@@ -46,6 +47,7 @@ class Config:
                  f'  AutoFence = {"TRUE" if self.auto_fence else "FALSE"}', f'  FailStrat = "{self.eff_fail}"',
                  f'  T = {self.t}', f'  SyncTicks = {self.sync_ticks}', f'  MaxCrash = {self.crash}',
                  f'  MaxRestart = {self.restart}', f'  MaxCut = {self.cut}', f'  MaxUser = {self.user}',
+                 f'  MaxConflict = {self.conflict}',
                  f'  SlowQ = {slow}', '  Checkpoint = "COLD"', f'  FixF1 = {"TRUE" if self.fix_f1 else "FALSE"}',
                  f'  FixF5 = {"TRUE" if self.fix_f5 else "FALSE"}',
                  f'  HoldDist = {"TRUE" if self.hold else "FALSE"}', f'  Mismatch = {self.tla_set(self.mismatch)}', f'  MaxRound = {self.rounds}', f'  D = {d}', f'  K = {self.k}']
@@ -319,8 +321,7 @@ def fair_tail(d, cfg, rounds):
     """Disturbances stop: heal every partition, then `rounds` fair rounds (every live instance ticks, every FIFO
     is drained)."""
     c = d.c
-    for pair in list(c.cuts):
-        a, b = sorted(pair)
+    for a, b in sorted(c.cuts):
         d.heal(a, b)
     for _ in range(rounds):
         d.fair_round()
@@ -393,9 +394,12 @@ def random_run(cfg, seed, steps, tail_rounds, p_delay=0.3, faults=True, inject=F
                 budget['cut'] -= 1
                 a, b = rnd.sample(names, 2)
                 d.cut(a, b)
+                if rnd.random() < 0.6 and budget['cut'] > 0:      # a full partition costs two directed cuts
+                    budget['cut'] -= 1
+                    d.cut(b, a)
                 continue
             if faults and x < 0.09 and c.cuts:
-                a, b = sorted(rnd.choice(list(c.cuts)))
+                a, b = rnd.choice(sorted(c.cuts))
                 d.heal(a, b)
                 continue
             if x < 0.10 and budget['user'] > 0 and live:
@@ -446,3 +450,55 @@ def random_run(cfg, seed, steps, tail_rounds, p_delay=0.3, faults=True, inject=F
     finally:
         c.close()
     return d.rec, ended
+
+
+# ---------------------------------------------------------------------------------------------------------------
+# scenario families shared by several checks
+
+HOLD_RULES = ('<?xml version="1.0" encoding="UTF-8" standalone="no"?><root><application name="hold">'
+              '<start_sequence>1</start_sequence><programs><program name="h1"><identifiers>n2</identifiers>'
+              '<start_sequence>1</start_sequence></program></programs></application></root>')
+
+
+def hold_distribution_scenarios(tier, seed, tail):
+    """The Master is held in DISTRIBUTION by a start that never ends; a late joiner completes its handshake (CHECKED,
+    not activated in DISTRIBUTION) and is then lost in different ways and at different moments, together with or
+    without a RUNNING peer."""
+    from recorder import Driver
+    cfg = Config(n=3, sync=('TIMEOUT',))
+    traces, recs = [], {}
+    k = 0
+    variants = [(how, when, also) for how in ('crash', 'cut', 'cutin') for when in (1, 2, 3) for also in (False, True)]
+    if tier == 'quick':
+        variants = variants[::2]
+    for how, when, also in variants:
+        c = make_cluster(cfg, programs=[{'name': 'h1', 'groups': ['hold'], 'startsecs': 100000}], rules_xml=HOLD_RULES)
+        d = Driver(c)
+        try:
+            d.boot('n1')
+            d.boot('n2')
+            for _ in range(8):
+                for n in ('n1', 'n2'):
+                    d.tick(n)
+                    d.drain()
+            d.boot('n3')
+            for _ in range(when):
+                d.fair_round()
+            if how == 'crash':
+                d.crash('n3')
+            elif how == 'cut':
+                d.cut('n3', 'n1')
+                d.cut('n1', 'n3')
+            else:
+                d.cut('n3', 'n1')          # only the ticks of n3 towards n1 are lost
+            if also:
+                d.crash('n2')
+            for _ in range(8):
+                d.fair_round()
+            fair_tail(d, cfg, tail)
+        finally:
+            c.close()
+        traces.append(mon_trace(k, d.rec, cfg, False, False))
+        recs[k] = d.rec
+        k += 1
+    return [(cfg, traces, recs)]
